@@ -266,6 +266,11 @@ class ConditionalStatementBase(StatementBase):
                 | frozenset(
                     dep.name for dep in dep_mapper(self.condition)))
 
+    def map_expressions(self, mapper, include_lhs=True):
+        return (super()
+                .map_expressions(mapper, include_lhs=include_lhs)
+                .copy(condition=mapper(self.condition)))
+
 # }}}
 
 
